@@ -378,24 +378,33 @@ Proof.
   exact Hd.
 Qed.
 
+Lemma safe_rd_zblock_ok : safeP (fun z => bytes_ok (snd z)) rd_zblock.
+Proof.
+  intros s ts _. unfold rd_zblock. destruct ts as [|[| |] r]; try exact I. cbn [snd].
+  apply Forall_forall. intros b Hb. apply in_map_iff in Hb. destruct Hb as (b0 & <- & _).
+  unfold byte_ok. apply Z.mod_pos_bound. lia.
+Qed.
+
 Lemma safe_rd_zrle_stream : safeP (fun r => bytes_ok (snd r)) rd_zrle_stream.
 Proof.
-  unfold rd_zrle_stream.
-  eapply (safe_bind (fun z => bytes_ok (snd z))); [auto with snd| |].
-  { intros s ts _. unfold rd_zblock. destruct ts as [|[| |] r]; try exact I. cbn [snd].
-    apply Forall_forall. intros b Hb. apply in_map_iff in Hb. destruct Hb as (b0 & <- & _).
-    unfold byte_ok. apply Z.mod_pos_bound. lia. }
-  intros [[[sid' fresh] ok] data] Hd. cbn [snd] in Hd.
-  apply safe_bind_get. intros s Hs ts.
-  destruct (negb (sid' =? 5)); [exact I|].
-  destruct (fixed s 11).
-  - destruct (Bool.eqb fresh (c_zrlez s)); [exact I|exact Hd].
-  - destruct (Bool.eqb fresh (zact_get s 0)); [exact I|exact Hd].
+  unfold rd_zrle_stream. apply safe_bind_get. intros s0 Hs0 ts0. destruct (fixed s0 11).
+  - assert (G : safeP (fun r : bool * list Z => bytes_ok (snd r))
+                  (z <- rd_zblock ;; let '(sid', fresh, ok, data) := z in s <- get_st ;;
+                   if negb (sid' =? 5) then (fun _ _ => Desync) else
+                   if Bool.eqb fresh (c_zrlez s) then (fun _ _ => Desync) else upd_st (fun s => set_zrlez s true) ;;; ret (ok, data))).
+    { eapply safe_bind; [auto with snd|apply safe_rd_zblock_ok|]. intros [[[sid' fresh] ok] data] Hd. cbn [snd] in Hd.
+      apply safe_bind_get. intros s Hs ts. destruct (negb (sid' =? 5)); [exact I|].
+      destruct (Bool.eqb fresh (c_zrlez s)); [exact I|exact Hd]. }
+    exact (G s0 ts0 Hs0).
+  - assert (G : safeP (fun r : bool * list Z => bytes_ok (snd r)) (rd_shared c_zrlez c_zlibz (fun s => set_zrlez s true) 5)).
+    { unfold rd_shared. eapply safe_bind; [auto with snd|apply safe_rd_zblock_ok|]. intros [[[sid' fresh] ok] data] Hd. cbn [snd] in Hd.
+      apply safe_bind_get. intros s Hs ts. destruct (negb (sid' =? 5)); [exact I|].
+      destruct (negb fresh && negb (c_zrlez s)); [exact I|].
+      destruct fresh; [destruct (zact_get s 0); [exact I|exact Hd]|]. destruct (zact_get s 0 && negb (c_zlibz s)); [exact Hd|exact I]. }
+    exact (G s0 ts0 Hs0).
 Qed.
-Lemma sound_rd_zrle_stream : sound rd_zrle_stream.
-Proof. unfold rd_zrle_stream. snd; try (apply sound_upd; intros; apply keeps_same; auto). Qed.
 Lemma frame_rd_zrle_stream : frame rd_zrle_stream.
-Proof. unfold rd_zrle_stream. frm; try (apply frame_upd; intros s0; destruct s0; unfold dimfix; cbn; auto). Qed.
+Proof. unfold rd_zrle_stream, rd_shared. frm; try (apply frame_upd; intros s1; destruct s1; unfold dimfix, zact_set; cbn; auto). Qed.
 
 Definition DZ8 (x y w h : Z) : Z -> Z -> Z -> Prop := fun W H fx =>
   Z.testbit fx 5 = true /\ Z.testbit fx 6 = true /\ Z.testbit fx 8 = true /\ x + w <= W /\ y + h <= H.
@@ -408,7 +417,7 @@ Proof.
   set (v := variant_of s0).
   set (cap := if c_rawsz s0 <? w * h * rbytes v * 2 + 4 then w * h * rbytes v * 2 + 4 else c_rawsz s0).
   eapply safeD_bind; [auto with snd|frm|apply safeD_of_safe; apply safe_upd|]. intros _ _.
-  eapply safeD_bind; [apply sound_rd_zrle_stream|apply frame_rd_zrle_stream|apply safeD_of_safe; apply safe_rd_zrle_stream|]. intros [ok data] Hd. cbn [snd] in Hd.
+  eapply safeD_bind; [auto with snd|apply frame_rd_zrle_stream|apply safeD_of_safe; apply safe_rd_zrle_stream|]. intros [ok data] Hd. cbn [snd] in Hd.
   destruct (negb ok); [apply safeD_fail|].
   destruct (Z.ltb_spec (cap - 4) (zlen data)); [apply safeD_fail|].
   eapply safeD_weaken; [|apply safe_zrle_rows; auto; try lia].
